@@ -86,7 +86,11 @@ pub fn compile_build(sources: &BTreeMap<String, String>, entry: &str, build: &Bu
   let mut heap = Heap::new();
   let mut handles: HashMap<ModuleReference, String> =
     if with_std { samlang_parser::builtin_std_raw_sources(&mut heap) } else { HashMap::new() };
-  for (name, text) in sources {
+  // The caller of the compiler decides in which order module names are interned (the CLI: the order the file
+  // system lists them). No result may depend on it, so this order is different in every process: the iteration
+  // order of a freshly seeded hash map.
+  let shuffled: HashMap<&String, &String> = sources.iter().collect();
+  for (name, text) in shuffled {
     let m = module_ref(&mut heap, name);
     handles.insert(m, text.clone());
   }
